@@ -5,6 +5,7 @@ Sched.point()) or when a thread finishes.  A schedule is the sorted list of glob
 which the running thread is preempted in favour of the other one.  The default (no preemption) is
 thread 0 to completion, then thread 1.
 """
+import sys
 import threading
 
 _local_tid = {}      # thread ident -> tid of the current execution
@@ -22,6 +23,7 @@ class Sched:
         self.done = [False, False]
         self.trace = []          # (k, tid, name, other_alive)
         self.used = []
+        self.tracer = None       # optional sys.settrace function installed in the two threads
 
     def point(self, name=''):
         tid = _local_tid.get(threading.get_ident())
@@ -40,17 +42,22 @@ class Sched:
         _local_tid[threading.get_ident()] = tid
         self.sems[tid].acquire()
         try:
+            if self.tracer is not None:
+                sys.settrace(self.tracer)       # line-granularity scheduling points in selected functions
             out[tid] = ('ok', fn())
         except BaseException as exc:   # noqa
             out[tid] = ('exc', type(exc).__name__, str(exc)[-200:])
         finally:
+            if self.tracer is not None:
+                sys.settrace(None)
             self.done[tid] = True
             _local_tid.pop(threading.get_ident(), None)
             if not self.done[1 - tid]:
                 self.sems[1 - tid].release()
 
-    def run(self, fn0, fn1, timeout=60, copy_context=False):
+    def run(self, fn0, fn1, timeout=60, copy_context=False, tracer=None):
         out = [None, None]
+        self.tracer = tracer
         if copy_context:
             # threads started the way asyncio.to_thread / run_in_executor start them: inside a copy of the
             # starting thread's contextvars context
